@@ -275,6 +275,18 @@ theorem touching_decimal (c0 : CP) (tl : List (Bool × CP)) (h0 : asciiDigit c0)
     ReadsAs (c0 :: renderTail tl) (.int (ofDigits 10 ((c0 - 48) :: tl.map (fun x => x.2 - 48)))) rest :=
   readsAs_decimal c0 tl h0 htl rest hstop hzero
 
+/-- the same for digits of the whole class `\d` the lexer accepts (Unicode `Nd`: Arabic-Indic, Devanagari, full-width, …),
+mixed freely: the value is positional over the digit values -/
+theorem touching_decimal_unicode (c0 v0 : Nat) (h0 : digitVal c0 = some v0) (tl : List (Bool × CP)) (val : CP → Nat)
+    (hv : ∀ x ∈ tl, digitVal x.2 = some (val x.2)) (rest : Line) (hstop : Stops digitVal rest)
+    (hzero : tl = [] → c0 = 48 → ∀ q r, rest = q :: r → q ≠ 120 ∧ q ≠ 111 ∧ q ≠ 98) :
+    ReadsAs (c0 :: renderTail tl) (.int (ofDigits 10 (v0 :: tl.map (fun x => val x.2)))) rest :=
+  readsAs_decimal_unicode c0 v0 h0 tl val hv rest hstop hzero
+
+example : ReadsAs [0x661, 0x32, 95, 0xFF13] (.int 123) [59] :=
+  readsAs_decimal_unicode 0x661 1 (by decide +kernel) [(false, 0x32), (true, 0xFF13)] (fun c => if c = 0x32 then 2 else 3)
+    (by decide +kernel) [59] ⟨by decide +kernel, fun h => absurd h (by decide)⟩ (fun h => absurd h (by decide))
+
 theorem touching_hex (d0 : CP) (v0 : Nat) (h0 : hexVal d0 = some v0) (tl : List (Bool × CP)) (val : CP → Nat)
     (hv : ∀ x ∈ tl, hexVal x.2 = some (val x.2)) (rest : Line) (hstop : Stops hexVal rest) :
     ReadsAs (48 :: 120 :: d0 :: renderTail tl) (.int (ofDigits 16 (v0 :: tl.map (fun x => val x.2)))) rest :=
